@@ -39,6 +39,10 @@ def instances(tier):
     for fam in ("euler", "sympl_euler"):
         out.append(dict(id="continued-%s-N2" % fam, family=fam, N=2, mode="pieces", cont=True, budget=b))
         out.append(dict(id="continued-lookup-%s-N2" % fam, family=fam, N=2, mode="lookup", cont=True, budget=b))
+    # the equation's parameters (OdeSystem.constants) are replaced between two calls: every piece has the end slopes of the equation in force
+    # when its step was taken
+    for fam in (("rk4", "euler") if quick else ("euler", "rk4", "dopri45", "sympl_euler", "heun_euler")):
+        out.append(dict(id="continued-constants-replaced-%s-N2" % fam, family=fam, N=2, mode="pieces", cont=True, constants_change=True, budget=b))
     out.append(dict(id="lookup-euler-N2-after-reset-reversed", family="euler", N=2, mode="lookup", reset_then_reverse=True, budget=b))
     out.append(dict(id="pieces-euler-N2-after-reset-reversed", family="euler", N=2, mode="pieces", reset_then_reverse=True, budget=b))
     out.append(dict(id="richardson-euler-N2", family="euler", N=2, mode="richardson", budget=b))
@@ -60,7 +64,7 @@ def step_order(lst, backward):
     return list(lst)[::-1] if backward else list(lst)
 
 
-def piece_checks(c, P, a, rhs_probe, backward, slopes=True, regions=None):
+def piece_checks(c, P, a, rhs_probe, backward, slopes=True, regions=None, kw_of_step=None):
     """pieces in step order: contiguous, end values = recorded rows, end slopes = f(recorded rows)"""
     sol = a.sol
     n = len(a.t)
@@ -78,8 +82,9 @@ def piece_checks(c, P, a, rhs_probe, backward, slopes=True, regions=None):
         ok_p.append(_eqv(c, its[i].p0, a.y[i]))
         ok_p.append(_eqv(c, its[i].p1, a.y[i + 1]))
         if slopes:
-            ok_m.append(_eqv(c, its[i].m0, rhs_probe(a.t[i], a.y[i])))
-            ok_m.append(_eqv(c, its[i].m1, rhs_probe(a.t[i + 1], a.y[i + 1])))
+            kw = kw_of_step(i) if kw_of_step is not None else {}
+            ok_m.append(_eqv(c, its[i].m0, rhs_probe(a.t[i], a.y[i], **kw)))
+            ok_m.append(_eqv(c, its[i].m1, rhs_probe(a.t[i + 1], a.y[i + 1], **kw)))
     c.check(P + ".pieces_contiguous_in_step_order", c.all(ok_t), regions=regions)
     c.check(P + ".piece_end_values_are_recorded_states", c.all(ok_p), regions=regions)
     if slopes:
@@ -123,7 +128,11 @@ def scenario(c, inst):
     # extrapolation table; their assertions are about coverage only)
     rhs = FreshRhs(c, shape, name="f", mode="fresh" if inst.get("mode") == "richardson" else "uf")
     probe = FreshRhs(c, shape, name="f", mode="uf")
-    st, built = run(spans.build_system, c, dict(inst, max_redo=1), t0, tf, dt0, True, rhs)
+    k_old = k_new = None
+    if inst.get("constants_change"):
+        k_old, k_new = c.real("k_old"), c.real("k_new")
+        c.assume(k_old != k_new)
+    st, built = run(spans.build_system, c, dict(inst, max_redo=1), t0, tf, dt0, True, rhs, (dict(k=k_old) if k_old is not None else None))
     if st != "ok":
         c.check("c06.constructs", False, info=repr(built))
         return
@@ -143,6 +152,9 @@ def scenario(c, inst):
         if st != "ok":
             return
         c.assume(absval(c, tf - T1) <= 2 * absval(c, a.dt))
+        n_first_leg = len(a.t)
+        if k_new is not None:
+            a.constants = dict(k=k_new)
     st, r = run(a.integrate, callback=[spans.cap_callback(c, cap + 1, kind)])
     if st != "ok":
         return
@@ -164,7 +176,11 @@ def scenario(c, inst):
     c.note("n_rows", n)
     c.case()
     if mode == "pieces":
-        piece_checks(c, "c06", a, probe, backward)
+        kw_of_step = None
+        if k_new is not None:
+            def kw_of_step(i):
+                return dict(k=k_old) if i < n_first_leg - 1 else dict(k=k_new)
+        piece_checks(c, "c06", a, probe, backward, kw_of_step=kw_of_step)
         vals = []
         for i in range(n):
             st, v = run(a.sol, a.t[i])
